@@ -266,10 +266,19 @@ def program_check(pairs, checker, col=None):
         lines.append(f"class Chain{i}(Mid{i}):")
         lines.append("    " + c05.header([("pk", "self", False)] + list(gp), "m"))
         lmap[len(lines)] = (i, "override-chain")
+        # return covariance through coroutine functions: calling an `async def` yields a coroutine object,
+        # never an int, whether or not the function declares a return type
+        lines.append("async " + c05.header(gp, f"ag{i}"))
+        lines.append("async " + c05.header(gp, f"agr{i}").replace("): pass", ") -> int: return 0"))
+        lines.append(f"def use_r{i}(cb: Callable[[{', '.join(['int'] * n_req)}], int]) -> None: ...")
     lines.append("def body():")
     for i, (fp, gp) in enumerate(pairs):
         lines.append(f"    use{i}(g{i})")
         lmap[len(lines)] = (i, "callable")
+        lines.append(f"    use_r{i}(ag{i})")
+        lmap[len(lines)] = (i, "async-unannotated")
+        lines.append(f"    use_r{i}(agr{i})")
+        lmap[len(lines)] = (i, "async-annotated")
     from pyanalyze.error_code import ErrorCode
 
     res = sut.check_source("\n".join(lines) + "\n", checker=checker)
@@ -292,6 +301,12 @@ def program_check(pairs, checker, col=None):
             fails.append((f"prog-callable|npos={n_req}|g={c05.kinds_key(gp)}",
                           f"`{c05.header(gp, 'g')}` accepted where Callable[[{', '.join(['int'] * n_req)}], Any] is expected but g({call}) raises TypeError",
                           fp, gp))
+        for route in ("async-unannotated", "async-annotated"):
+            if (i, route) not in diag:
+                fails.append((f"prog-{route}|accepted-as-Callable-returning-int",
+                              f"`async {c05.header(gp, 'g')}`{' -> int' if route.endswith('-annotated') and not route.startswith('async-un') else ''} is accepted where "
+                              f"Callable[[{', '.join(['int'] * n_req)}], int] is expected, but calling it returns a coroutine object", fp, gp))
+                break
         # override: self is bound in both, so compare the remaining parameters
         if any(k == "po" for k, _, _ in fp + gp):
             continue  # `self` before a positional-only marker would change the header's meaning
